@@ -211,6 +211,9 @@ def _statements(tpl):
     return top, fn_body
 
 
+TRAP_ARMING = r"""trap\s+(--\s+)?['\"]?__scrut_persist_state['\"]?\s+EXIT\b"""   # bare, quoted or after `--`: the same argument vector
+
+
 def r12_4(ctx):
     tpl = template(ctx.prog)
     top, body = _statements(tpl)
@@ -222,7 +225,7 @@ def r12_4(ctx):
                 return i
         return None
     i_src = idx(lambda l: re.search(r"\bsource\s+\"\$__SCRUT_TEMP_STATE_PATH/state\"", l))
-    i_trap = idx(lambda l: re.search(r"\btrap\s+__scrut_persist_state\s+EXIT\b", l))
+    i_trap = idx(lambda l: re.search(r"\b%s" % TRAP_ARMING, l))
     i_expr = idx(lambda l: l == "{shell_expression}")
     i_path = idx(lambda l: l.startswith("__SCRUT_TEMP_STATE_PATH="))
     ctx.check(None not in (i_src, i_trap, i_expr, i_path) and i_path < i_src < i_trap < i_expr and i_expr == len(top) - 1, "template-order", where,
@@ -241,7 +244,7 @@ def r12_4(ctx):
             if re.match(r"^fi\b", l) and gs:
                 gs.pop()
         in_if = bool(enclosing) and any(re.match(r"^if \[\[? \{persist_state\} (-eq|==|=) 1 \]\]?\s*;?\s*(then)?$", g) for g in enclosing) and \
-            re.match(r"^trap\s+__scrut_persist_state\s+EXIT\b", top[i_trap]) is not None
+            re.match(r"^%s" % TRAP_ARMING, top[i_trap]) is not None
         ctx.check(inline or in_if, "trap-conditional", where, "the trap is installed exactly when {persist_state} is 1",
                   "the EXIT trap statement `%s` is not guarded by `{persist_state} -eq 1`" % top[i_trap])
     # loading the previous state must not depend on {persist_state}: a detached test case (persist_state=0) leaves nothing behind, but it
